@@ -192,8 +192,7 @@ class Std(Scenario):
                 out.append(('setid', 0, (live[0] - 1) % 65536))      # the counter comes round to the oldest live identifier
                 if live[0] == 1:
                     out.append(('setid', 0, 65535))                  # ... through the 65535 -> (0) -> 1 wrap itself
-                if len(live) > 1 and live[-1] != live[0]:
-                    out.append(('setid', 0, 65533))                  # ... or approaches the wrap from below
+                out.append(('setid', 0, 65533))                      # ... or approaches the wrap from below
         if left('tick') > 0:
             n = len(w.ties())
             if n:
